@@ -146,6 +146,10 @@ def run(run, ix, tier):
     from . import c02
     run.rule('B-R4i', floor=3, desc='exact-remainder idioms of division and square root')
     c02.check_sticky_idioms(SubRun(run, keep=('B-R4i',)), ix)
+    # ---- B-R10: guard bits must follow the size of an amplifying multiplier
+    from .kernel_rules import check_amplified_error
+    run.rule('B-R10', floor=6, desc='amplified intermediates carry multiplier-dependent guard bits')
+    check_amplified_error(run, ix, 'B-R10')
     # ---- B-R8: real-axis delegation of the complex exp/trig family ---------------------------------
     run.rule('B-R8', floor=10, desc='complex exp/trig kernels delegate real-axis arguments to the real kernel')
     for name in AXIS_FAMILY:
